@@ -41,7 +41,33 @@ class Target:
     containers: set[str] = field(default_factory=set)           # receiver texts that are owned builtin containers
     inline_props: bool = True
     ext_functions: dict[str, tuple[int, int]] = field(default_factory=dict)  # free function name -> (external number, arity)
+    method_externals: dict[str, tuple[int, list[str]]] = field(default_factory=dict)
+    # method name -> (external number, argument sources; "$recv" = the receiver expression, whatever it is): dynamic dispatch on
+    # an object held in a field, a local, a parameter or a helper's return value
+    ext_attrs: dict[str, int] = field(default_factory=dict)     # attribute path (source text) read through an external, no arguments
+    await_ext: int | None = None        # `await <expr>` of something that is not itself an external call -> this external, [expr]
+    callables: dict[str, int] = field(default_factory=dict)     # parameter / local that is called: name -> external, args [callee, *args]
     self_names: tuple[str, ...] = ("self", "cls")
+
+
+class _Renamed(dict):
+    """the caller's numbering of locals, seen from an inlined callee: its own names are kept apart by a tag"""
+
+    def __init__(self, base: dict, tag: str):
+        super().__init__()
+        self.base, self.tag = base, tag
+
+    def __contains__(self, name):
+        return (self.tag + name) in self.base
+
+    def __getitem__(self, name):
+        return self.base[self.tag + name]
+
+    def __setitem__(self, name, value):
+        self.base[self.tag + name] = value
+
+    def __len__(self):
+        return len(self.base)
 
 
 class Tr:
@@ -49,6 +75,8 @@ class Tr:
         self.t, self.cls_node, self.fn = t, cls_node, fn
         self.locals: dict[str, int] = {p: i for i, p in enumerate(t.params)}
         self.tmp = 0
+        self.alias: dict[str, str] = {}    # local name -> receiver text it was last assigned from (`w = self._waiting`)
+        self.recv_texts = {r for (r, _m) in t.externals}
 
     # ---- helpers
     def local(self, name: str) -> int:
@@ -117,6 +145,8 @@ class Tr:
                 return [], f"(Expr.loc {self.locals[n.id]})"
             raise Unrecognised(f"name {n.id}")
         if isinstance(n, ast.Attribute):
+            if self.src(n) in self.t.ext_attrs:
+                return [], f"(Expr.call {self.t.ext_attrs[self.src(n)]} Expr.nil)"
             if isinstance(n.value, ast.Name) and n.value.id in self.t.self_names:
                 if n.attr in self.t.fields:
                     return [], f"(Expr.fld {self.t.fields[n.attr]})"
@@ -125,7 +155,10 @@ class Tr:
                     return self.expr(pb)
             raise Unrecognised(f"attribute {self.src(n)}")
         if isinstance(n, ast.Await):
-            return self.expr(n.value)
+            p, e = self.expr(n.value)
+            if self.t.await_ext is not None and not (isinstance(n.value, ast.Call) and e.startswith("(Expr.call ")):
+                return p, f"(Expr.call {self.t.await_ext} {self.lst([e])})"
+            return p, e
         if isinstance(n, ast.UnaryOp) and isinstance(n.op, ast.Not):
             p, e = self.expr(n.operand)
             return p, f"(Expr.not_ {e})"
@@ -171,6 +204,7 @@ class Tr:
             return pv, f"(Expr.call {B['getitem']} {self.lst([ev, es])})"
         if isinstance(n, ast.NamedExpr):
             p, e = self.expr(n.value)
+            self.note_alias(n.target, n.value)
             i = self.local(n.target.id)
             return p + [f"(Stmt.assign {i} {e})"], f"(Expr.loc {i})"
         if isinstance(n, (ast.List, ast.Tuple)):
@@ -242,6 +276,16 @@ class Tr:
                         if isinstance(sub, (ast.Call, ast.Await)):
                             raise Unrecognised("call inside exception arguments")
                 return [], f"(Expr.call {B['newexc']} {self.lst([f'(Expr.lit (Val.cls {EXC_CLASSES[f.id]}))'])})"
+            if f.id in self.t.callables and f.id in self.locals:
+                pres, es = [], [f"(Expr.loc {self.locals[f.id]})"]
+                if n.keywords:
+                    raise Unrecognised("keyword arguments to a callable parameter")
+                for a in n.args:
+                    p, e = self.expr(a)
+                    if p:
+                        raise Unrecognised("effectful argument")
+                    es.append(e)
+                return pres, f"(Expr.call {self.t.callables[f.id]} {self.lst(es)})"
             if f.id in self.t.ext_functions:
                 num, arity = self.t.ext_functions[f.id]
                 if len(n.args) != arity or n.keywords:
@@ -257,10 +301,24 @@ class Tr:
             raise Unrecognised(f"call of {f.id}")
         if isinstance(f, ast.Attribute):
             recv, meth = self.src(f.value), f.attr
+            if recv in self.t.self_names and (recv, meth) not in self.t.externals:
+                return self.inline(n, meth)
+            if recv in self.alias and (self.alias[recv], meth) in self.t.externals:
+                num, spec = self.t.externals[(self.alias[recv], meth)]
+                spec = [("$" + recv) if a == "$" + self.alias[recv] else a for a in spec]   # the local's own value is passed
+                pres, es = self.args_of(n, spec)
+                return pres, f"(Expr.call {num} {self.lst(es)})"
             if (recv, meth) in self.t.externals:
                 num, spec = self.t.externals[(recv, meth)]
                 pres, es = self.args_of(n, spec)
                 return pres, f"(Expr.call {num} {self.lst(es)})"
+            if recv not in self.t.containers and meth in self.t.method_externals:
+                num, spec = self.t.method_externals[meth]
+                pr, er = self.expr(f.value)
+                pres, es = self.args_of(n, [a for a in spec if a != "$recv"])
+                it = iter(es)
+                full = [er if a == "$recv" else next(it) for a in spec]
+                return pr + pres, f"(Expr.call {num} {self.lst(full)})"
             if recv in self.t.containers:
                 pr, er = self.expr(f.value)
                 if meth == "popleft" and not n.args:
@@ -274,6 +332,67 @@ class Tr:
                     raise Unrecognised("dict.get")
             raise Unrecognised(f"call {recv}.{meth}")
         raise Unrecognised(f"call {self.src(n)}")
+
+    def inline(self, n: ast.Call, meth: str) -> tuple[list[str], str]:
+        """`self.<meth>(args)` with <meth> a method of the same class: the callee's body is translated in place, its
+        parameters and locals renamed apart, `return` ending the inlined body only (`Stmt.scoped`)"""
+        if self.cls_node is None:
+            raise Unrecognised(f"call self.{meth}")
+        fns = [x for x in self.cls_node.body if isinstance(x, (ast.FunctionDef, ast.AsyncFunctionDef)) and x.name == meth]
+        if len(fns) != 1:
+            raise Unrecognised(f"call self.{meth}: no such method")
+        fn = fns[0]
+        if any(isinstance(d, ast.Name) and d.id in ("staticmethod", "classmethod", "property") for d in fn.decorator_list):
+            raise Unrecognised(f"call self.{meth}: decorated")
+        self.depth = getattr(self, "depth", 0) + 1
+        if self.depth > 4:
+            raise Unrecognised("inlining depth")
+        a = fn.args
+        if a.vararg or a.kwarg:
+            raise Unrecognised(f"call self.{meth}: variadic callee")
+        params = [x.arg for x in a.posonlyargs + a.args][1:]
+        kwonly = [x.arg for x in a.kwonlyargs]
+        defaults = dict(zip(reversed(params), reversed(a.defaults))) if a.defaults else {}
+        kwdefaults = {k: d for k, d in zip(kwonly, a.kw_defaults) if d is not None}
+        given: dict[str, ast.expr] = {}
+        if len(n.args) > len(params):
+            raise Unrecognised(f"call self.{meth}: too many arguments")
+        for name, arg in zip(params, n.args):
+            given[name] = arg
+        for kw in n.keywords:
+            if kw.arg is None or kw.arg in given or kw.arg not in params + kwonly:
+                raise Unrecognised(f"call self.{meth}: keyword {kw.arg}")
+            given[kw.arg] = kw.value
+        pres: list[str] = []
+        vals: dict[str, str] = {}
+        for name in params + kwonly:
+            node = given.get(name, defaults.get(name, kwdefaults.get(name)))
+            if node is None:
+                raise Unrecognised(f"call self.{meth}: argument {name} missing")
+            p, e = self.expr(node)
+            pres += p
+            vals[name] = e
+        saved = self.locals
+        tag = f"${meth}{self.depth}_{len(saved)}$"
+        self.locals = _Renamed(saved, tag)
+        try:
+            binds = [f"(Stmt.assign {self.local(name)} {e})" for name, e in vals.items()]
+            body = self.stmts(fn.body)
+        finally:
+            self.locals = saved
+            self.depth -= 1
+        dst = self.fresh()
+        return pres + binds + [f"(Stmt.scoped {dst} {body})"], f"(Expr.loc {dst})"
+
+    def note_alias(self, target: ast.expr, value: ast.expr) -> None:
+        if isinstance(target, ast.Name):
+            txt = self.src(value)
+            if txt in self.recv_texts:
+                self.alias[target.id] = txt
+            elif isinstance(value, ast.Name) and value.id in self.alias:
+                self.alias[target.id] = self.alias[value.id]
+            else:
+                self.alias.pop(target.id, None)
 
     def store(self, target: ast.expr, e: str) -> str:
         if isinstance(target, ast.Name):
@@ -326,6 +445,7 @@ class Tr:
                 pv, ev = self.expr(value)
                 return self.seq(pr + pk + pv + [self.store(tg.value, f"(Expr.call {B['setitem']} {self.lst([er, ek, ev])})")])
             p, e = self.expr(value)
+            self.note_alias(tg, value)
             return self.seq(p + [self.store(tg, e)])
         if isinstance(s, ast.Return):
             if s.value is None:
@@ -373,11 +493,36 @@ def find(tree: ast.Module, cls: str | None, method: str):
     return cls_node, fns[0]
 
 
+EXC_ORIGIN = {"CancelledError": {"asyncio", "asyncio.exceptions"}, "MissingState": {"haiway.context.types"},
+              "MissingContext": {"haiway.context.types"}}
+
+
+def check_exception_names(tree: ast.Module) -> None:
+    """the exception class names of the subset must mean what the interpreter takes them to mean: builtins not shadowed
+    at module level, the others imported from their home module (a `CancelledError` from `concurrent.futures` is another class)"""
+    for node in tree.body:
+        names = []
+        if isinstance(node, ast.ImportFrom):
+            names = [(a.asname or a.name, node.module or "", a.name) for a in node.names]
+        elif isinstance(node, ast.Import):
+            names = [(a.asname or a.name.split(".")[0], a.name, None) for a in node.names]
+        elif isinstance(node, (ast.ClassDef, ast.FunctionDef, ast.AsyncFunctionDef)):
+            names = [(node.name, "<local definition>", None)]
+        elif isinstance(node, (ast.Assign, ast.AnnAssign)):
+            tg = node.targets if isinstance(node, ast.Assign) else [node.target]
+            names = [(x.id, "<assignment>", None) for x in tg if isinstance(x, ast.Name)]
+        for bound, module, orig in names:
+            if bound in EXC_CLASSES:
+                if bound not in EXC_ORIGIN or module not in EXC_ORIGIN[bound] or orig != bound:
+                    raise Unrecognised(f"exception class name {bound} is bound by the module to {module}.{orig}")
+
+
 def translate(repo, t: Target) -> tuple[str, dict[str, int]]:
     """-> (Lean term of type Stmt, numbering of the locals)"""
     from pathlib import Path
 
     tree = ast.parse((Path(repo) / t.file).read_text())
+    check_exception_names(tree)
     cls_node, fn = find(tree, t.cls, t.method)
     a = fn.args
     names = [x.arg for x in a.posonlyargs + a.args + a.kwonlyargs]
